@@ -4386,8 +4386,12 @@ fn check_service_name(fullname: &str) -> Result<()> {
 }
 
 /// Checks that every label of `name` can be encoded, i.e. is at most 63 bytes.
+///
+/// The daemon also sends queries under the lower-cased form of a name (its map keys),
+/// and lower-casing can lengthen a label (e.g. 'İ' becomes "i\u{307}"), so that form
+/// is checked as well.
 fn check_label_lengths(name: &str) -> Result<()> {
-    if !name_labels_fit(name) {
+    if !name_labels_fit(name) || !name_labels_fit(&name.to_lowercase()) {
         return Err(e_fmt!("{} has a label longer than 63 bytes", name));
     }
     Ok(())
